@@ -1,7 +1,8 @@
 (* C17 shard routing and sharded = unsharded: the property clause by clause, for every key, every shard count,
    every hash value (oracle argument h) and every history.  Statements closed by `exact` only. *)
 From Coq Require Import List Bool ZArith.
-Require Import Remap Shard C17_Index C17_Shard C17_LruView C17_Multi C17_Check.
+From Coq Require Import Permutation.
+Require Import Remap Shard C17_Index C17_Shard C17_LruView C17_Multi C17_Burst C17_Check.
 Import ListNotations.
 Open Scope Z_scope.
 
@@ -166,6 +167,20 @@ Theorem c17_multi_sharded_equals_unsharded : forall (K C O R : Type) (key : O ->
   forall k, multi_sh K C O R key keq cstep route op sh keys (route k) k = multi_un K C O R key keq cstep op s keys k.
 Proof. exact multi_sharded_equals_unsharded. Qed.
 
+(* ---- concurrent writes on pairwise distinct keys (the harness' burst class) ---- *)
+(* whatever order the writes of a burst took effect in, every key's cell, and so every later answer, is the same *)
+Theorem c17_burst_order_free : forall (K C O R : Type) (key : O -> K) (keq : K -> K -> bool),
+  (forall a b, keq a b = true <-> a = b) -> forall (cstep : C -> O -> C * R) s h h',
+  Permutation h h' -> NoDup (map key h) ->
+  forall k, run_state _ O R (cell_step K C O R key keq cstep) s h k = run_state _ O R (cell_step K C O R key keq cstep) s h' k.
+Proof. exact burst_order_free. Qed.
+Theorem c17_burst_then_requests : forall (K C O R : Type) (key : O -> K) (keq : K -> K -> bool),
+  (forall a b, keq a b = true <-> a = b) -> forall (cstep : C -> O -> C * R) (c0 : C) h h' tl,
+  Permutation h h' -> NoDup (map key h) ->
+  trace _ O R (cell_step K C O R key keq cstep) (run_state _ O R (cell_step K C O R key keq cstep) (cinit K C c0) h) tl
+  = trace _ O R (cell_step K C O R key keq cstep) (run_state _ O R (cell_step K C O R key keq cstep) (cinit K C c0) h') tl.
+Proof. exact burst_then_requests. Qed.
+
 (* ---- the driver's evaluation is sound ---- *)
 Theorem c17_case_sound : forall c, case_accept c = true -> case_holds c = true.
 Proof. exact case_sound. Qed.
@@ -202,4 +217,6 @@ Print Assumptions c17_groups_sorted.
 Print Assumptions c17_groups_spec.
 Print Assumptions c17_groups_cover.
 Print Assumptions c17_multi_sharded_equals_unsharded.
+Print Assumptions c17_burst_order_free.
+Print Assumptions c17_burst_then_requests.
 Print Assumptions c17_case_sound.
